@@ -217,14 +217,16 @@ class PlotCollection:
         for name, fig in self.figures.items():
             plt.close(fig)
 
-    def serialize(self, dest: str, confirm_overwrite: bool = True) -> None:
-        logger.debug("Serializing PlotCollection to " + dest + "...")
+    def serialize(self, dest: PathStr,
+                  confirm_overwrite: bool = True) -> None:
+        logger.debug("Serializing PlotCollection to %s...", dest)
         if confirm_overwrite and not user.check_and_confirm_overwrite(dest):
             return
         else:
             pickle.dump(self.figures, open(dest, 'wb'))
 
-    def export(self, file_path: str, confirm_overwrite: bool = True) -> None:
+    def export(self, file_path: PathStr,
+               confirm_overwrite: bool = True) -> None:
         base, ext = os.path.splitext(file_path)
         if ext in ("", "."):
             # savefig() appends the default format to names without extension
@@ -241,7 +243,7 @@ class PlotCollection:
             for name, fig in self.figures.items():
                 pdf.savefig(fig)
             pdf.close()
-            logger.info("Plots saved to " + file_path)
+            logger.info("Plots saved to %s", file_path)
         else:
             for name, fig in self.figures.items():
                 dest = base + '_' + name + ext
